@@ -479,8 +479,17 @@ def argument_order(ctx, py: PyRepo):
             names = [x.strip() for x in v[3][0][0].strip('()').split(',')]
             return len(names) == 2 and v[2][1] == ('bound', names[0]) and v[2][2] == ('bound', names[1])
         return False
-    ok = bool(rets) and args_name is not None and all(
-        p.end[1][0] == 'call' and p.end[1][1] == ('name', 'Instantiate') and len(p.end[1][2]) == 2 and enumerated(p.end[1][2][1]) for p in rets)
+    def inst_args(v):
+        # Instantiate(pattern, inst) with positional or keyword arguments (fields: pattern, inst)
+        if not (v[0] == 'call' and v[1] == ('name', 'Instantiate')):
+            return None
+        got = dict(zip(('pattern', 'inst'), v[2]))
+        for k_, x_ in v[3]:
+            if k_ in got or k_ not in ('pattern', 'inst'):
+                return None
+            got[k_] = x_
+        return (got['pattern'], got['inst']) if set(got) == {'pattern', 'inst'} else None
+    ok = bool(rets) and args_name is not None and all(inst_args(p.end[1]) is not None and enumerated(inst_args(p.end[1])[1]) for p in rets)
     ctx.ob('argument-order', 'Notation.__call__', ok,
            'Notation.__call__ must store argument i under key i in argument order (frozendict(enumerate(args))): the renderer reads the '
            'values positionally', py.where('pattern', call))
@@ -539,6 +548,18 @@ def transformers_treat_outputs_alike(ctx, py: PyRepo):
                 subj = ast.unparse(inline_locals(fn.body, node.args[0], keep))
                 if 'sub_interpreter' in subj:
                     yield [ast.unparse(e) for e in (node.args[1].elts if isinstance(node.args[1], ast.Tuple) else [node.args[1]])], node
+            # the same test written as a class pattern: `match self.sub_interpreter: case StatefulInterpreter() as s [if ..]:`
+            if isinstance(node, ast.Match) and 'sub_interpreter' in ast.unparse(inline_locals(fn.body, node.subject, keep)):
+                for case in node.cases:
+                    pats = case.pattern.patterns if isinstance(case.pattern, ast.MatchOr) else [case.pattern]
+                    names = []
+                    for pt in pats:
+                        while isinstance(pt, ast.MatchAs) and pt.pattern is not None:
+                            pt = pt.pattern
+                        if isinstance(pt, ast.MatchClass):
+                            names.append(ast.unparse(pt.cls))
+                    if names:
+                        yield names, case.pattern
     # the rule may legitimately match nothing; a built-in positive example keeps it from passing vacuously
     example = ast.parse('def m(self, p):\n    sub = self.sub_interpreter\n    if isinstance(sub, SerializingInterpreter):\n        return p\n').body[0]
     ctx.require([names for names, _n in class_tests(example)] == [['SerializingInterpreter']],
